@@ -77,6 +77,17 @@ class FixSelf2D(Case):
         s.dom = 'uf' if T in FT else 'bits'
 
 
+class DynSelf2D(Case):
+    """A(all, seq(f,l)) = g(A(all, seq(f,l))) without noalias on the run-time 2-D view (perfect overlap), widths with SIMD tails"""
+    def __init__(s, T, M, N, f, l, op):
+        a = Buf('a', T, M * N, 'inout'); v = f'A(all,seq({f},{l}))'
+        k = f'Tensor<{T},{M},{N}> A(a); {v} {op} {v} + {v}; ' + copy_out('A', 'a', M * N)
+        dbl = 't_+t_' if T in FT else f'({T})(({UT[T]})t_+({UT[T]})t_)'
+        r = f'for(int i=0;i<{M};++i) for(int j={f};j<{l};++j) {{ {T} t_ = a[i*{N}+j]; ' + apply_op(T, op, f'a[i*{N}+j]', dbl) + ' }'
+        Case.__init__(s, f'ovdself2_{SHORT[T]}_{M}x{N}_{f}_{l}_{OPN[op]}', [a], k, r, desc=f'{v} {op} {v}+{v} on {M}x{N} {T}')
+        s.dom = 'uf' if T in FT else 'bits'
+
+
 class FixOverlap(Case):
     """compile-time ranges (concrete), data symbolic"""
     def __init__(s, T, N, sp1, sp2, op, noalias=True):
@@ -120,6 +131,7 @@ def cases(tier, cfg, seed):
         out.append(FixOverlap(T, 9, fs(2, 6), fs(2, 6), '+=', noalias=False))
         for (f, l) in ((1, 6), (0, 7), (1, 10), (2, 19)):
             for op in ('=', '+='): out.append(FixSelf2D(T, 2, 20, f, l, op))
+            out.append(DynSelf2D(T, 2, 20, f, l, '=')); out.append(DynSelf2D(T, 2, 20, f, l, '*=' if T in FT else '-='))
     return out
 
 
